@@ -178,9 +178,7 @@ async def check_tree(ctx, case):
         with_parent = RV.ref_validate(fake, dict(asg, **({"6": "U"} if parent == "IS_FORBIDDEN" else {})), soll)[1:]
     except RV.ExpectNotImplemented:
         return
-    if parent == "IS_FORBIDDEN":
-        # called directly below a forbidden parent the node itself is reported forbidden and nothing below it
-        with_parent = [(node["d"], "IS_FORBIDDEN", None, None)]
+    forbidden_parent = parent == "IS_FORBIDDEN"
     obj2 = TB.build_group(node) if node["k"] == "G" else TB.build_segment(node)
 
     async def go_parent():
@@ -195,7 +193,13 @@ async def check_tree(ctx, case):
     if pout[0] != "ok":
         ctx.violation(f"validation-raises-{type(pout[1]).__name__}", f"validate_segment{'_group' if node['k'] == 'G' else ''}({node['d']}, {parent}) under {asg} {describe(pout)[:300]}")
         return
-    compare(ctx, f"validate_segment{'_group' if node['k'] == 'G' else ''}({node['d']}, parent {parent}, soll_is_required={soll}) under {asg}", TB.summarise(pout[1]), with_parent, case)
+    got_parent = TB.summarise(pout[1])
+    if forbidden_parent:
+        # nothing below a forbidden node is reported; called directly with a forbidden parent the node itself may be reported (forbidden) or not
+        if any(g[0] != node["d"] or g[1] != "IS_FORBIDDEN" for g in got_parent):
+            ctx.violation("coverage-or-pruning", f"validate_segment{'_group' if node['k'] == 'G' else ''}({node['d']}, parent IS_FORBIDDEN) reports {[(g[0], g[1]) for g in got_parent][:8]}: below a forbidden parent nothing but the (forbidden) node itself may be reported", case=case)
+        return
+    compare(ctx, f"validate_segment{'_group' if node['k'] == 'G' else ''}({node['d']}, parent {parent}, soll_is_required={soll}) under {asg}", got_parent, with_parent, case)
 
 
 async def check_sequence(ctx, case):
